@@ -253,6 +253,12 @@ def err_to_wire(e):
 
 
 def wire_err(d):
+    # API shape: ErrorMessage / ErrorType / ErrorData are strings, StackTrace a list of strings (botocore validates parameters before sending)
+    for k in ("ErrorMessage", "ErrorType", "ErrorData"):
+        if d.get(k) is not None and not isinstance(d[k], str):
+            raise InvalidHistory(f"request rejected: Error.{k} is not a string")
+    if d.get("StackTrace") is not None and not (isinstance(d["StackTrace"], list) and all(isinstance(x, str) for x in d["StackTrace"])):
+        raise InvalidHistory("request rejected: Error.StackTrace is not a list of strings")
     return ErrorObject(d.get("ErrorMessage"), d.get("ErrorType"), d.get("ErrorData"), d.get("StackTrace"))
 
 
